@@ -51,6 +51,8 @@ def base_scenarios():
     out.append(('three_mutators', [(s1, 0), (s2, 0)], [(2, s1, 1)], [(2, s2, 2), (3, 0, 0), (2, s1, 3), (1, s1, 0)]))
     out.append(('stale_unregister', [(s1, 0)], [(2, s1, 1), (3, 0, 0), (2, s1, 2), (3, 0, 0)], [(1, s1, 0), (2, s1, 3)]))
     out.append(('sticky', [(s1, 0)], [(2, s1, 1)], [(1, s1, 0), (3, 0, 0), (1, s1, 0)]))
+    # unregister_signal racing with a registration of the same signal, then a delivery: the registration that returned must run
+    out.append(('unregsig_vs_register', [(s1, 0)], [(2, s1, 7)], [(4, s1, 0), (2, s1, 8), (1, s1, 0)]))
     out.append(('other_signal', [(s1, 0), (s2, 0)], [(2, s1, 1), (2, s2, 2)], [(1, s1, 0), (3, 1, 0), (1, s2, 0)]))
     return out
 
